@@ -43,7 +43,7 @@ func runC17Gaps2(c *eng.Ctx) {
 
 func c17g2isCallTo(v ssa.Value, name string) *ssa.Call {
 	k, ok := c17strip(v).(*ssa.Call)
-	if !ok || eng.CalleeName(k.Common()) != name {
+	if !ok || nfCallOf(k).Name != name { // resolved callee: also through a bound method value
 		return nil
 	}
 	return k
@@ -56,7 +56,7 @@ func c17g2extractOf(v ssa.Value, name string, idx int) bool {
 		return false
 	}
 	k, ok := e.Tuple.(*ssa.Call)
-	return ok && eng.CalleeName(k.Common()) == name
+	return ok && nfCallOf(k).Name == name
 }
 
 // c17g2variadic: the values stored into the slots of a variadic argument
@@ -93,8 +93,8 @@ func c17g2Backup(c *eng.Ctx) {
 	if f == nil {
 		return
 	}
-	la := eng.Calls(f, `^keysutil\.\(\*Policy\)\.LoadArchive$`)
-	per := eng.Calls(f, `^keysutil\.\(\*Policy\)\.Persist$`)
+	la := c17calls(f, `^keysutil\.\(\*Policy\)\.LoadArchive$`)
+	per := c17calls(f, `^keysutil\.\(\*Policy\)\.Persist$`)
 	if !c.Floor(f, "LoadArchive in Backup", len(la), 1) || !c.Floor(f, "Persist in Backup", len(per), 1) {
 		return
 	}
@@ -111,7 +111,7 @@ func c17g2Backup(c *eng.Ctx) {
 		c17provAll(c, f, "backup carries the archive read from storage", la[0], pv)
 	}
 	c.Clause("R2", "C17.3")
-	c.Cut(f, "backup returned", eng.SuccessReturns(f, 1), eng.GCallOK(f, `^keysutil\.\(\*Policy\)\.LoadArchive$`), nil)
+	c.Cut(f, "backup returned", eng.SuccessReturns(f, 1), nfGCallOK(f, `^keysutil\.\(\*Policy\)\.LoadArchive$`), nil)
 	c.Clause("R3", "C17.3")
 	c.Before(f, "Persist (adjusts the archive)", instrsOf(per), "LoadArchive", instrsOf(la))
 }
@@ -180,7 +180,7 @@ func c17g2Derive(c *eng.Ctx) {
 		{`^sdk/helper/kdf\.CounterMode$`, 2, 3},
 		{`^golang\.org/x/crypto/hkdf\.New$`, 1, 3},
 	} {
-		for _, cl := range eng.Calls(f, k.pat) {
+		for _, cl := range c17calls(f, k.pat) {
 			n++
 			site := "prov{" + eng.CalleeName(cl.Common()) + " is given the fetched key and the caller's context}"
 			switch {
@@ -196,7 +196,7 @@ func c17g2Derive(c *eng.Ctx) {
 	c.Floor(f, "KDF calls in DeriveKey", n, 2)
 	// GetKey hands its context through unchanged
 	if g := c.Fn("keysutil.(*Policy).GetKey"); g != nil && len(g.Params) >= 2 {
-		for _, cl := range eng.Calls(g, `^keysutil\.\(\*Policy\)\.DeriveKey$`) {
+		for _, cl := range c17calls(g, `^keysutil\.\(\*Policy\)\.DeriveKey$`) {
 			if c17strip(c17arg(cl, 1)) == ssa.Value(g.Params[1]) {
 				c.OK(g, "prov{GetKey passes its context through unchanged}", cl.Pos(), eng.Expr(c17arg(cl, 1)))
 			} else {
@@ -246,12 +246,12 @@ func c17g2Rewrap(c *eng.Ctx) {
 		return
 	}
 	decPat, encPat := `^keysutil\.\(\*Policy\)\.Decrypt(WithFactory)?$`, `^keysutil\.\(\*Policy\)\.Encrypt(WithFactory)?$`
-	dec, enc := eng.Calls(f, decPat), eng.Calls(f, encPat)
+	dec, enc := c17calls(f, decPat), c17calls(f, encPat)
 	if !c.Floor(f, "Decrypt in rewrap", len(dec), 1) || !c.Floor(f, "Encrypt in rewrap", len(enc), 1) {
 		return
 	}
 	c.Clause("R2", "C17.2")
-	c.Cut(f, "re-encryption", instrsOf(enc), eng.GCallOK(f, decPat), nil)
+	c.Cut(f, "re-encryption", instrsOf(enc), nfGCallOK(f, decPat), nil)
 	c.Clause("R5", "C17.2")
 	var pv []c17pv
 	for _, e := range enc {
@@ -333,7 +333,7 @@ func c17g2Batch(c *eng.Ctx) {
 		if f == nil {
 			continue
 		}
-		calls := eng.Calls(f, h.call)
+		calls := c17calls(f, h.call)
 		if !c.Floor(f, "per-item call "+h.call, len(calls), 1) {
 			continue
 		}
@@ -496,7 +496,7 @@ func c17g2HMAC(c *eng.Ctx) {
 		if f == nil {
 			continue
 		}
-		hn, hw, hs := eng.Calls(f, `^crypto/hmac\.New$`), eng.Calls(f, `^<hash\.Hash>\.Write$`), eng.Calls(f, `^<hash\.Hash>\.Sum$`)
+		hn, hw, hs := c17calls(f, `^crypto/hmac\.New$`), c17calls(f, `^<hash\.Hash>\.Write$`), c17calls(f, `^<hash\.Hash>\.Sum$`)
 		if !c.Floor(f, "hmac.New", len(hn), 1) || !c.Floor(f, "hash Write", len(hw), 1) || !c.Floor(f, "hash Sum", len(hs), 1) {
 			continue
 		}
@@ -518,7 +518,7 @@ func c17g2HMAC(c *eng.Ctx) {
 		site := "after{Write(message)} no further Write without a new hmac.New"
 		var hit *eng.Hit
 		for _, w := range hw {
-			if hit = eng.Reach(eng.Query{Fn: f, StartAfter: w, Barriers: append(instrsOf(hn), instrsOf(eng.Calls(f, `^<hash\.Hash>\.Reset$`))...), Target: eng.IsTarget(instrsOf(hw))}); hit != nil {
+			if hit = eng.Reach(eng.Query{Fn: f, StartAfter: w, Barriers: append(instrsOf(hn), c17sites(f, `^<hash\.Hash>\.Reset$`)...), Target: eng.IsTarget(instrsOf(hw))}); hit != nil {
 				break
 			}
 		}
@@ -530,7 +530,7 @@ func c17g2HMAC(c *eng.Ctx) {
 	}
 	// verification compares the whole computed MAC with the decoded MAC of the same item
 	if f := c.Fn("transit.(*backend).pathHMACVerify"); f != nil {
-		eq := eng.Calls(f, `^crypto/hmac\.Equal$`)
+		eq := c17calls(f, `^crypto/hmac\.Equal$`)
 		if c.Floor(f, "hmac.Equal", len(eq), 1) {
 			c.Clause("R5", "C17.2")
 			site := "prov{hmac.Equal(whole computed MAC, decoded MAC of the item)}"
@@ -570,7 +570,7 @@ func c17g2Trim(c *eng.Ctx, F *c17fields) {
 		return
 	}
 	ld := c17loadOf
-	sa := instrsOf(eng.Calls(f, `^keysutil\.\(\*Policy\)\.storeArchive$`))
+	sa := c17sites(f, `^keysutil\.\(\*Policy\)\.storeArchive$`)
 	if len(sa) == 0 {
 		return // floor reported by c17durable
 	}
@@ -742,7 +742,7 @@ func c17g2AssocHelper(c *eng.Ctx) {
 		return
 	}
 	c.Clause("R5", "C17.2")
-	dec := eng.Calls(f, `^\(\*encoding/base64\.Encoding\)\.DecodeString$`)
+	dec := c17calls(f, `^\(\*encoding/base64\.Encoding\)\.DecodeString$`)
 	if !c.Floor(f, "DecodeString in GetAssociatedData", len(dec), 1) {
 		return
 	}
@@ -814,7 +814,7 @@ func c17g2PersistRollback(c *eng.Ctx) {
 			}
 		}
 	}
-	calls := instrsOf(eng.Calls(f, `^keysutil\.\(\*Policy\)\.handleArchiving$`))
+	calls := c17sites(f, `^keysutil\.\(\*Policy\)\.handleArchiving$`)
 	if !c.Floor(ha, "Policy fields stored by handleArchiving", len(fields), 2) || len(calls) == 0 {
 		return
 	}
@@ -876,7 +876,7 @@ func c17g2ArchiveCopy(c *eng.Ctx, F *c17fields) {
 	if f == nil {
 		return
 	}
-	sa := instrsOf(eng.Calls(f, `^keysutil\.\(\*Policy\)\.storeArchive$`))
+	sa := c17sites(f, `^keysutil\.\(\*Policy\)\.storeArchive$`)
 	if len(sa) == 0 {
 		return // floor reported by c17durable
 	}
